@@ -356,7 +356,10 @@ impl Workload for SchedWorkload {
                 let mut o = GenomeOpts::plain(if big { rng.range(k + 8, k + 30) } else { rng.range(k + 20, k + 90) });
                 o.deletions = rng.chance(50);
                 o.repeats = rng.chance(30);
-                let samples = gen_samples(&mut rng, n, k, &o, "s");
+                let mut samples = gen_samples(&mut rng, n, k, &o, "s");
+                if rng.chance(30) {
+                    crate::gen::vary_paths(&mut rng, &mut samples);
+                }
                 // two samples with the same name (e.g. */contigs.fa from two directories), one in each
                 // half of the list
                 let list_names = if kind == "build-list" && n >= 4 && rng.chance(25) {
@@ -398,6 +401,9 @@ impl Workload for SchedWorkload {
                 let mut all = gen_samples(&mut rng, n + 1, k, &o, "s");
                 let mut r = all.pop().unwrap();
                 r.name = "ref".into();
+                if rng.chance(30) {
+                    crate::gen::vary_paths(&mut rng, &mut all);
+                }
                 let cmd = match kind {
                     "align-skf" => SchedCmd::AlignSkf(AlignOpts::random(&mut rng)),
                     "align-seq" => SchedCmd::AlignSeq(AlignOpts::random(&mut rng)),
@@ -480,10 +486,10 @@ impl Workload for SchedWorkload {
         let mut log = vec![format!("case {kind} k={} n={} variants={}", c.k, c.samples.len(), c.variants.len())];
         let mut out = Outcome::default();
         for s in &c.samples {
-            dir.write(&s.file(), s.fasta().as_bytes());
+            dir.write(&s.file(), &s.bytes());
         }
         if let Some(r) = &c.reference {
-            dir.write(&r.file(), r.fasta().as_bytes());
+            dir.write(&r.file(), &r.bytes());
         }
         if let Some(fq) = &c.fastq {
             let mut l = String::new();
